@@ -28,7 +28,9 @@ from harness.gen import c14_split as G
 
 RULE = ("case = reads file (FASTQ, gzipped FASTQ or BAM; 0-30*scale reads, duplicate names, BAM reads without sequence / "
         "mapped / unmapped) x haplotag list (2 or 4 columns, with or without header, none entries, absent names, rarely "
-        "duplicate names, unknown haplotype names or empty) x ploidy 2-4 x (--output-h1/-h2 | -o...) x --output-untagged x "
+        "duplicate names, unknown haplotype names or empty; 35% written with one of 18 layout perturbations: line ends, white space, "
+        "blank / short / wide lines, header variants; 25% gzipped) x ploidy 2-4 (rarely 1) x (--output-h1/-h2 | -o... | rarely "
+        "anomalous output options) x --output-untagged x pre-existing output files x "
         "--add-untagged x --discard-unknown-reads x --only-largest-block; non-trivial iff the CLI accepted the input and at "
         "least two reads were written to requested outputs; distinct = distinct (reads, list, options)")
 MANIFEST = dict(
@@ -37,7 +39,11 @@ MANIFEST = dict(
          "output receives exactly, once and in input order, the reads the option table prescribes; all outputs requested => "
          "partition; histogram column = reads written (without --add-untagged) with one row per length. Tied to the working "
          "tree by running the real CLI on generated FASTQ/BAM x list x option cases, reading all outputs back independently, "
-         "comparing with the model and evaluating the three predicates with a Python oracle",
+         "comparing with the model and evaluating the three predicates with a Python oracle. Deepened: the model starts at the "
+         "text of the list file and the output options (strip/split/universal newlines, header test, validate), covers read "
+         "length extraction, input format decision and the histogram file; end-to-end theorem from list text to outputs, "
+         "largest-block selection and histogram column sums proved; list functions, iterators and format decision also compared "
+         "in-process",
     design_ref="DESIGN.md §5 C14",
     note="trusted: Lean kernel, axioms ⊆ {propext, Classical.choice, Quot.sound}; hand-written model; pysam/htslib/xopen I/O "
          "and file-format detection are outside the model; a read is identified by its input index, 'unmodified' is judged on "
